@@ -402,16 +402,28 @@ func genSleep(rng *mon.RNG, jump bool) lop {
 func runLockstep(t *testing.T, idx int, mode string, rng *mon.RNG) {
 	jump := mode == "jump"
 	z := pickZone(rng)
+	chain := pickChain(rng)
 	ops := genLockstep(rng, jump, z)
+	if chain != "none" {
+		// jobs that block across their own and other entries' activations, and more releases
+		for i := range ops {
+			if ops[i].Kind == "add" && rng.Bool() {
+				ops[i].Spec.Block = true
+			}
+			if (ops[i].Kind == "entries" || ops[i].Kind == "entry") && rng.Chance(1, 3) {
+				ops[i] = lop{Kind: "release"}
+			}
+		}
+	}
 	phase := genPhase(rng, z)
 	yield := rng.Intn(3)
 	var hs []string
 	for _, o := range ops {
 		hs = append(hs, o.String())
 	}
-	desc := fmt.Sprintf("%s loc=%s phase=%v yield=%d %s", mode, z.name, phase, yield, strings.Join(hs, " "))
+	desc := fmt.Sprintf("%s loc=%s chain=%s phase=%v yield=%d %s", mode, z.name, chain, phase, yield, strings.Join(hs, " "))
 	rec.Begin(idx, desc)
-	w := &world{idx: idx, mode: mode, zone: z, history: hs, yield: yield, yieldRng: mon.NewRNG("c05-yield", idx)}
+	w := &world{idx: idx, mode: mode, zone: z, chain: chain, history: hs, yield: yield, yieldRng: mon.NewRNG("c05-yield", idx)}
 	res := bubble(t, w, func() {
 		if jump {
 			w.vc = vclock.New(time.Date(2000, 1, 1, 0, 0, 0, 0, time.UTC).Add(phase))
@@ -512,6 +524,9 @@ func runLockstep(t *testing.T, idx int, mode string, rng *mon.RNG) {
 			synctest.Wait()
 			ls.last = "after-final-stop"
 			ls.compareStarts()
+		}
+		if !w.viol.Load() {
+			w.checkChain(mode)
 		}
 		rec.Count("starts.compared", ls.m.npred)
 	})
